@@ -3,6 +3,7 @@ package core
 import (
 	"bytes"
 	"fmt"
+	am "github.com/pancsta/asyncmachine-go/pkg/machine"
 	"os"
 	"os/exec"
 	"strings"
@@ -11,6 +12,11 @@ import (
 
 // RunImpl executes a case on the real machine.
 func RunImpl(c Case) ([]OpObs, *Schema, error) {
+	return RunImplSchema(c, nil)
+}
+
+// RunImplSchema: RunImpl on a machine made from a given am.Schema value (shared between executions).
+func RunImplSchema(c Case, shared am.Schema) ([]OpObs, *Schema, error) {
 	sch, err := ParseSchemaLine(c.Lines[0])
 	if err != nil {
 		return nil, nil, err
@@ -21,7 +27,7 @@ func RunImpl(c Case) ([]OpObs, *Schema, error) {
 			timeout = 150 * time.Millisecond
 		}
 	}
-	r, err := NewRunner(sch, timeout)
+	r, err := NewRunnerSchema(sch, timeout, "vm", shared)
 	if err != nil {
 		return nil, sch, err
 	}
